@@ -120,7 +120,7 @@ def instances():
     T("c06_remove_n8", "c06::remove_reinsert::<8>(SYM, SYM, false)", 8, props=C6, covers="some", share_quick=('C18', 'C02'))
     T("c06_remove_reinsert_n8", "c06::remove_reinsert::<8>(SYM, SYM, true)", 8, props=C6, covers="some", be_quick=G8)
     T("c06_remove_n16", "c06::remove_reinsert::<16>(SYM, SYM, false)", 16, be=G8, props=C6, timeout=1800)
-    T("c06_remove_reinsert_n16", "c06::remove_reinsert::<16>(SYM, SYM, true)", 16, be=G8, props=C6, timeout=1800)
+    T("c06_remove_reinsert_n16", "c06::remove_reinsert::<16>(SYM, SYM, true)", 16, be=G8, props=C6, timeout=1800, covers="some")
     T("c06_remove_n32s", "c06::remove_reinsert::<32>(SYM, SYM, false)", 32, be=S16, props=C6, tier="thorough", timeout=3600)
     T("c06_entry_n4", "c06::entry::<4, 4>(2, 0)", 4, items=2, be_quick=G8)
     T("c06_entry_n4_grow", "c06::entry::<4, 8>(3, 0)", 4, n2=8, items=3, covers="some", be_quick=G8)
@@ -279,10 +279,10 @@ def instances():
     T("c04_hasher_grow_nodrop_n4", "c04::hasher_panic_nodrop::<4, 8>(0b0111, 0, 1, 0)", 4, n2=8, items=3, props=("C04", "C02"), be=G8)
     T("c04_hasher_grow_nodrop_n8", "c04::hasher_panic_nodrop::<8, 16>(0b00010010, 0, 6, 1)", 8, n2=16, items=2, props=("C04", "C02"))
     T("c04_hasher_grow_drop_n8", "c04::hasher_panic_drop::<8, 16>(0b00100100, 0, 6, 0)", 8, n2=16, items=2, props=("C04", "C03"), be=G8)
-    T("c04_rehash_hook_nodrop_n8", "c04::rehash_hook_panic::<8>(3, false)", 8, n2=8, items=3, be=G8, props=("C04", "C02"), timeout=7200, tier="thorough", mem_gb=30)
-    T("c04_rehash_hook_drop_n8", "c04::rehash_hook_panic::<8>(3, true)", 8, n2=8, items=3, be=G8, props=("C04", "C03"), timeout=7200, tier="thorough", mem_gb=30)
-    T("c04_rehash_hook_drop_n4", "c04::rehash_hook_panic::<4>(2, true)", 4, n2=4, items=2, be=G8, props=("C04", "C03"), timeout=1800)
-    T("c04_rehash_hook_nodrop_n4", "c04::rehash_hook_panic::<4>(2, false)", 4, n2=4, items=2, props=("C04", "C02"), timeout=1800, be_quick=G8)
+    T("c04_rehash_hook_nodrop_n8", "c04::rehash_hook_panic::<8>(3, false)", 8, n2=8, items=3, be=G8, props=("C04", "C02"), timeout=7200, tier="thorough", mem_gb=30, covers="some")
+    T("c04_rehash_hook_drop_n8", "c04::rehash_hook_panic::<8>(3, true)", 8, n2=8, items=3, be=G8, props=("C04", "C03"), timeout=7200, tier="thorough", mem_gb=30, covers="some")
+    T("c04_rehash_hook_drop_n4", "c04::rehash_hook_panic::<4>(2, true)", 4, n2=4, items=2, be=G8, props=("C04", "C03"), timeout=1800, covers="some")
+    T("c04_rehash_hook_nodrop_n4", "c04::rehash_hook_panic::<4>(2, false)", 4, n2=4, items=2, props=("C04", "C02"), timeout=1800, be_quick=G8, covers="some")
     for (nt, ns) in ((8, 8), (8, 4), (4, 8), (8, 1), (4, 4)):
         big = (nt, ns) in ((8, 8), (4, 8))
         T("c04_clone_from_panic_%d_%d" % (nt, ns), "c04::clone_from_panic::<%d, %d>()" % (nt, ns), max(nt, ns), be=G8, props=("C04", "C11", "C03"), covers="some" if ns == 1 else "all",
